@@ -618,7 +618,9 @@ pub fn scn_zlibframe(o: &Opts, tr: &mut Tr, prop: &str) {
                 st_name(st)
             };
             let flat = run(16, false);
-            let rings: Vec<serde_json::Value> = (8..=15).map(|k| json!([1usize << k, run(1usize << k, true)])).collect();
+            // rings larger than any window RFC 1950 allows, for every header with the deflate method
+            let top = if cmf % 16 == 8 { 17 } else { 15 };
+            let rings: Vec<serde_json::Value> = (8..=top).map(|k| json!([1usize << k, run(1usize << k, true)])).collect();
             tr.ev(json!({"ev": "zhdr", "cmf": cmf, "flg": flg, "flat": flat, "rings": rings}));
         }
     }
